@@ -190,7 +190,7 @@ class EntTypedTree(TypedTree):
 
 
 # ====================================================================== label -> data factories
-UNI = ("ä€", "日本語", "😀\"\\q")  # unicode alphabet (2-byte, 3-byte, astral + JSON escapes)
+UNI = ("ä€", "日本語\udce9", "😀\"\\q")  # unicode alphabet (2-byte, 3-byte, astral + JSON escapes)
 
 
 def _memo(fn):
